@@ -132,10 +132,14 @@ def run(tier, seed):
             if fl:
                 flags += len(fl)
                 # stage 2: independent generator family, 4N draws, one-sided on the flagged statistic
-                jp = os.path.join(wd, 'recount.json')
-                json.dump({'wt': e['wt'], 'n': 4 * e['n'], 'seed': e['seed'] ^ 0x5EED, 'weights': e['weights']}, open(jp, 'w'))
-                r = subprocess.run([rel, 'c10-recount', jp], capture_output=True, text=True, timeout=3600)
-                rec = json.loads(r.stdout.strip().splitlines()[-1])
+                if e.get('counts2'):
+                    # drawn by the harness from the very tree that was flagged (ChaCha12, 4N)
+                    rec = {'ev': 'recount', 'counts': e['counts2'], 'n': e['n2']}
+                else:
+                    jp = os.path.join(wd, 'recount.json')
+                    json.dump({'wt': e['wt'], 'n': 4 * e['n'], 'seed': e['seed'] ^ 0x5EED, 'weights': e['weights']}, open(jp, 'w'))
+                    r = subprocess.run([rel, 'c10-recount', jp], capture_output=True, text=True, timeout=3600)
+                    rec = json.loads(r.stdout.strip().splitlines()[-1])
                 if rec.get('ev') != 'recount':
                     ver.add({'wt': e['wt'], 'kind': 'sample_panic'}, rec)
                     continue
